@@ -10,6 +10,12 @@ LEVEL = "model_checking"
 MODES = [None, "sandboxed", "safe", "unsafe", "garbage", "SAFE", "safe ", "Unsafe", "strict", "0", "safe,unsafe", "sandbox", ""]
 
 
+AMBIENT_ATTRS = ["", ' check-lua-mode="unsafe"', ' lua-mode="safe"', ' mode="unsafe"', ' BLOCKWATCH_LUA_MODE="unsafe"', ' check-lua-stdlib="all"']
+AMBIENT_FILES = {".env": "BLOCKWATCH_LUA_MODE=unsafe\nLUA_MODE=unsafe\n", ".blockwatch.toml": 'lua_mode = "unsafe"\n[lua]\nmode = "unsafe"\n',
+                 "blockwatch.toml": 'lua-mode = "unsafe"\n', ".blockwatchrc": "BLOCKWATCH_LUA_MODE=unsafe\n",
+                 ".config/blockwatch/config.toml": 'lua_mode = "unsafe"\n'}
+
+
 def normalise(path):
     p = path
     changed = True
@@ -74,8 +80,13 @@ def run(chk):
         nb = 10 if quick else 60
         if i % 2:
             env = dict(env, TOKIO_WORKER_THREADS="1")
-        cases.append({"id": "m%d" % i, "files": {"a.py": "".join('# <block name="p%d" check-lua="%s">\nx\n# </block>\n' % (k, probe) for k in range(nb))},
-                      "diff": None, "args": [], "terminal": True, "env": env})
+        files = {"a.py": "".join('# <block name="p%d" check-lua="%s"%s>\nx\n# </block>\n' % (k, probe, AMBIENT_ATTRS[(i + k) % len(AMBIENT_ATTRS)])
+                                 for k in range(nb))}
+        # the mode is a matter of the process environment only: neither attributes of the block nor files of the checked
+        # repository (which the script's author controls) can lift the sandbox
+        if i % 3 != 1:
+            files.update(AMBIENT_FILES)
+        cases.append({"id": "m%d" % i, "files": files, "diff": None, "args": [], "terminal": True, "env": env})
     res = vlib.run_cli(cases, timeout=60)
     chk.exhaustive = True
     for i, m in enumerate(MODES):
